@@ -185,6 +185,26 @@ func (in *Interp) connWrite(fr *frame, dst Value, s Str) Value {
 		}
 		return in.newError(CStr("write: i/o timeout"), nil)
 	}
+	// a write deadline: one that has passed fails the write at once; one that lies in the
+	// future fails it if enough time has gone by meanwhile (a symbolic choice per connection,
+	// sticky once taken: handler delays are part of what the properties quantify over)
+	if wd, _ := raw.F["wdeadline"].(string); wd == "expired" {
+		in.emit("write.timeout", in.connName(dst))
+		return in.newError(CStr("write: i/o timeout"), nil)
+	} else if wd == "armed" {
+		passed := raw.F["wdeadlinePassed"]
+		if passed == nil {
+			v := in.tt.Var("time.passes."+in.connName(dst)+".writeDeadline", BoolSort)
+			in.path.inputs = append(in.path.inputs, InputVar{Name: v.name, Kind: "bool", T: v})
+			passed = boolVal(v)
+			raw.F["wdeadlinePassed"] = passed
+		}
+		if in.branch(passed, "time passes beyond the write deadline") {
+			raw.F["wdeadline"] = "expired"
+			in.emit("write.timeout", in.connName(dst))
+			return in.newError(CStr("write: i/o timeout"), nil)
+		}
+	}
 	if wf := raw.F["writeFail"]; wf != nil {
 		if in.branch(wf, "write failure") {
 			in.emit("write.fail", in.connName(dst))
@@ -1184,7 +1204,7 @@ func (in *Interp) objMethod(fr *frame, o *Obj, name string, args []Value) Value 
 			}
 			o.F["deadline"] = true
 			if name == "SetDeadline" {
-				o.F["wdeadline"] = true
+				o.F["wdeadline"] = deadlineState(args[0])
 			}
 			return Iface{}
 		case "SetWriteDeadline":
@@ -1196,7 +1216,7 @@ func (in *Interp) objMethod(fr *frame, o *Obj, name string, args []Value) Value 
 				delete(o.F, "wdeadline")
 				return Iface{}
 			}
-			o.F["wdeadline"] = true
+			o.F["wdeadline"] = deadlineState(args[0])
 			return Iface{}
 		case "RemoteAddr", "LocalAddr":
 			return in.ifaceOf(in.newObj("addr"))
@@ -1400,4 +1420,16 @@ func (in *Interp) simpleFilterText(fr *frame, p *Value) (Str, bool) {
 		return concatStr(out, CStr(")")), true
 	}
 	return Str{}, false
+}
+
+// deadlineState: "expired" for an instant that is not later than now (the model's
+// time.Now()), "armed" for one in the future (time.Now().Add(d), d > 0).
+func deadlineState(t Value) string {
+	st, ok := t.(Struct)
+	if ok && len(st) >= 2 {
+		if e, ok := st[1].(Int); ok && e == 2 {
+			return "armed"
+		}
+	}
+	return "expired"
 }
